@@ -7,6 +7,10 @@ import Fv.Props.CacheConc
 told a released cost different from what it removed). With `capacity = u64::MAX` (`unbounded()`), the
 capacity pass's load of `current_cost` can never exceed the capacity, so the pass never reaches its
 policy call: the hypothesis is a theorem.
+
+Programs may MIX calls on the sync handle (`Cache`) and on the async handle (`AsyncCache`): the environment
+label `call op async` chooses the handle per call, and every theorem below quantifies over such mixed
+programs (see `Fv.Props.CacheConcAsync` for what differs between the two handles).
 -/
 namespace Fv.Props.C13Conc
 open Fv.Cache.Conc
